@@ -138,6 +138,9 @@ def main():
     mod = importlib.import_module("p_" + pid.lower())
     ev_path = os.path.join(VERIF, "evidence", pid + ".json")
     os.makedirs(os.path.join(VERIF, "evidence", "replay"), exist_ok=True)
+    for fn in os.listdir(os.path.join(VERIF, "evidence", "replay")):
+        if fn.startswith(pid + "-"):
+            os.remove(os.path.join(VERIF, "evidence", "replay", fn))
     try:
         res = mod.run(ctx)
     except extract.BuildFailed as e:
